@@ -24,6 +24,7 @@ type Task struct {
 	wake    chan struct{}
 	SkipOne string // a Point with this label is passed without parking, once (see Go)
 	Stuck   bool   // a step of this task did not come back in time (it is blocked inside the code under test)
+	Waiting bool   // the last step ended where it began: a failed lock attempt, or a waiting select none of whose cases was ready
 }
 
 // Sched owns the tasks of one test case.
@@ -93,6 +94,7 @@ func (s *Sched) Step(id int, patience time.Duration) (ran bool, err error) {
 	}
 	mu.Lock()
 	s.cur = t
+	t.Waiting = false
 	mu.Unlock()
 	select {
 	case t.wake <- struct{}{}:
@@ -140,7 +142,20 @@ func Lock(m *sync.Mutex, label string) {
 		if m.TryLock() {
 			return
 		}
+		t.Waiting = true
 	}
+}
+
+// Blocked is called by the poll that replaces a waiting select (one without default) or a bare channel receive of the
+// instrumented code when no case is ready: the task goes back to the Point in front of the select and parks there
+// again, as a failed lock attempt does.  Without a scheduler the poll sleeps a moment.
+func Blocked() {
+	_, t := current()
+	if t == nil {
+		time.Sleep(200 * time.Microsecond)
+		return
+	}
+	t.Waiting = true
 }
 
 // Go replaces a `go f()` statement: the new goroutine becomes a task of the running scheduler.  Its
